@@ -31,6 +31,7 @@ ASSUMPTIONS = [
     'integer overflow of signed dtypes is outside the model; unsigned wrap-around is modelled',
     'float arithmetic is exact rational arithmetic (grouped_mean)',
     "forms added after seeding rounds: a 21-id request over a sparse id alphabet with 40 fixed + 2 symbolic spikes (NumPy's sort-based membership branch: decided by the witness replays only); int8/uint8/int16 quantities in grouped_mean",
+    'round 8: _index_of also with the lookup form from_sparse uses (a trailing -1 sentinel) and -1 among the arguments, which must map to the sentinel position',
 ]
 STUBS = []
 OUTSIDE = ['vectors longer than the bound', 'float rounding in grouped_mean']
@@ -62,6 +63,10 @@ def configs(tier):
     for nl in range(1, 5):
         for na in range(0, 4):
             out.append({'kind': 'index_of', 'nl': nl, 'na': na})
+    # the form from_sparse uses: lookup with a trailing -1 sentinel, -1 among the arguments (round 8)
+    for nl in range(1, 4):
+        for na in range(1, 4):
+            out.append({'kind': 'index_of', 'nl': nl, 'na': na, 'sentinel': True})
     for n in range(1, (4 if tier == 'quick' else 5)):
         out.append({'kind': 'grouped_mean', 'n': n, 'V': 4 if tier == 'quick' else 5, 'dtype': DTYPES[n % 4]})
     for n, vdt in ((2, 'int8'), (3, 'uint8'), (2, 'int16')):
@@ -175,6 +180,9 @@ def run_config(cfg, e):
                 for b in range(a + 1, nl):
                     e.assume(lk[a] != lk[b])
             ar = [e.int('a%d' % i) for i in range(na)]
+            if cfg.get('sentinel'):
+                lk = lk + [-1]
+                nl = nl + 1
             for a in ar:
                 e.assume(sor(*[a == t for t in lk]))
             lookup = snp.ndarray(snp._fromlist(lk, (nl,)), 'int64')
